@@ -187,6 +187,15 @@ Theorem C02_generic_pattern_negative_refuted :
 Proof. exact generic_pattern_negative_refuted. Qed.
 Print Assumptions C02_generic_pattern_negative_refuted.
 
+(* after the repair of the positive is_instance / is_value branches *)
+Example C02_assert_promotion_repaired :
+  narrow [plain (VTyped CFloat)] (CAssertInst CInt) true = [plain (VTyped CInt)] /\
+  c02_guard (CAssertInst CInt) (OInt 1) = true /\ holds (CAssertInst CInt) (OInt 1) = Some true /\
+  narrow [plain (VTyped CFloat)] (CAssertIs (OBool true)) true = [plain (VKnown (OBool true))] /\
+  narrow [plain (VSub CFloat)] (CAssertIs (OClass CInt)) true = [plain (VKnown (OClass CInt))].
+Proof. exact assert_promotion_repaired. Qed.
+Print Assumptions C02_assert_promotion_repaired.
+
 (* after the repair of _deliteral: TypeIs[list[str]] on x: list[int] keeps the empty list *)
 Example C02_generic_typeis_positive :
   narrow [plain (VGen (GList TIntE))] (CTypeIs [VGen (GList TStrE)]) true = [plain (VGen (GList TStrE))] /\
